@@ -129,7 +129,7 @@ def histories(case):
 
   def rec(hist, state, ref_p, ref_s):
     stats['states'] += 1
-    if len(hist) >= depth:
+    if len(hist) >= depth:  # noqa: closure reads the current value of depth
       return
     for name, idxs in COHORTS.items():
       nc = dict(case, history=hist + [name])
@@ -145,6 +145,11 @@ def histories(case):
       outs.add(core.digest(algos.plist(rp)))
       rec(hist + [name], ns, rp, rs)
   rec([], alg.init(algos.jparams()), p0, s_ref.init(p0))
+  if 'history' not in case:
+    # second root (other initial parameters) served by the same long-lived algorithm object
+    p1 = {'w': [-1.0, 0.75], 'b': -0.25}
+    depth = min(depth, 2)
+    rec([], alg.init(algos.jparams(p1)), algos.nparams(p1), s_ref.init(algos.nparams(p1)))
   return {'evals': stats['transitions'], 'states': stats['states'], 'transitions': stats['transitions'],
           'traces': stats['transitions'], 'outcomes': sorted(outs), 'nontrivial': True,
           'keys': [[copt, sopt, i] for i in range(stats['transitions'])]}
